@@ -24,8 +24,8 @@ def build_e1(opt=None, variant="plain"):
     return b, exe, t
 
 
-def run_e1(exe, prop, tier, out, K, extra=()):
-    cmd = [exe, "--prop", prop, "--tier", tier, "--seed", str(seed()), "--out", out, "--jobs", str(vbuild.NCPU),
+def run_e1(exe, prop, tier, out, K, extra=(), use_seed=None):
+    cmd = [exe, "--prop", prop, "--tier", tier, "--seed", str(seed() if use_seed is None else use_seed), "--out", out, "--jobs", str(vbuild.NCPU),
            "--deadline", str(DEADLINE[tier]), "--K", repr(K)] + list(extra)
     r = subprocess.run(cmd, stdout=subprocess.PIPE, stderr=subprocess.STDOUT, text=True)
     recs = []
@@ -129,19 +129,25 @@ def check(prop, tier):
     if precision and tier == "thorough":
         variants.append(("O2", "-O2"))
     allrecs, builds = [], []
+    # thorough: all four vetted base assignments (seed, seed+1, seed+2, seed+3 mod 4); quick: the one selected by VERIF_SEED
+    seeds = [(seed() + k) % 4 for k in range(4)] if tier == "thorough" else [seed() % 4]
     for variant, opt in variants:
         b, exe, tcomp = build_e1(opt=opt, variant=variant)
         out = os.path.join(b.dir, "e1.out")
-        recs = run_e1(exe, prop, tier, out, K)
-        for r in recs:
-            r["build"] = variant
-        allrecs += recs
+        for sd in (seeds if variant == "plain" else seeds[:1]):
+            recs = run_e1(exe, prop, tier, out, K, use_seed=sd)
+            for r in recs:
+                r["build"] = variant
+                if r["k"] in ("system", "worker"):
+                    r["system"] = "%s@base%d%s" % (r["system"], sd, "" if variant == "plain" else "/" + variant)
+            allrecs += recs
         builds.append({"variant": variant, "cxxflags": " ".join(b.flags[:3]), "build_s": round(b.wall, 2), "harness_compile_s": round(tcomp, 2)})
     stats, per_system = merge(allrecs, rep, K, prop)
     if not stats:
         sys.stderr.write("E1: no comparisons were made for %s -- vacuous run is a harness error\n" % prop)
         raise SystemExit(2)
     rep.coverage["builds"] = builds
+    rep.coverage["base_assignments"] = seeds
     rep.assumptions += ["reference models (governing operator applied to the documented field, float128 2nd-order jets) are correct transcriptions",
                         "parameter values restricted to the deviation alphabet around a distinct non-zero dyadic base; points to the dyadic lattice (all inputs exactly representable in double, long double and float128)"]
     if precision:
@@ -154,6 +160,9 @@ def check(prop, tier):
 
 def replay(prop, path):
     v = json.load(open(path))
+    if prop == "C20" or "args" not in v or "params" not in v:
+        from vcommon import replay_by_rerun
+        return replay_by_rerun(prop, path, lambda tier: check(prop, tier))
     b, exe, _ = build_e1()
     txt = os.path.join(b.dir, "replay.txt")
     with open(txt, "w") as f:
